@@ -3,7 +3,7 @@ import FsDb.Proofs.StepCommit
 namespace FsDb
 open Sys Spec
 
-theorem written_eq {c : Sys} {s : State} (h : R c s) {x : STx} (hx : x ∈ s.open_) {st : Store}
+theorem written_eq {c : Sys} {s : State} {cl : List Nat} (h : Rx cl c s) {x : STx} (hx : x ∈ s.open_) {st : Store}
     (hst : c.txs x.id = some st) :
     writtenS (Spec.close s x.id).dom x.own = cWritten c st := by
   show s.dom.filter _ = c.dom.filter _
@@ -17,7 +17,7 @@ theorem written_eq {c : Sys} {s : State} (h : R c s) {x : STx} (hx : x ∈ s.ope
   | none => simp [latest_none hl]
   | some v => simp [List.ne_nil_of_mem (latest_mem hl)]
 
-theorem conflict_eq {c : Sys} {s : State} (h : R c s) {x : STx} (hx : x ∈ s.open_) {tx : TxRec} {st : Store}
+theorem conflict_eq {c : Sys} {s : State} {cl : List Nat} (h : Rx cl c s) {x : STx} (hx : x ∈ s.open_) {tx : TxRec} {st : Store}
     (hst : c.txs x.id = some st) (hl : x.level = tx.level) (hb : x.beginStamp = tx.seq) :
     conflictS (Spec.close s x.id) x = Sys.conflictOf tx c.dom c.main st := by
   unfold conflictS Sys.conflictOf
@@ -33,13 +33,13 @@ def dropState (c : Sys) (t : Nat) (st : Store) : Sys :=
   { c with reg := c.reg.filter (·.id ≠ t), txs := fun t' => if t' = t then none else c.txs t',
            all := removeLinks c.all (cLasts c st ++ cOlds c st) }
 
-theorem dropState_pending_R {c : Sys} {s : State} (h : R c s) {t : Nat} {st : Store} (hst : c.txs t = some st)
+theorem dropState_pending_R {c : Sys} {s : State} {cl : List Nat} (h : Rx cl c s) {t : Nat} {st : Store} (hst : c.txs t = some st)
     (job : List Ver) (hj : ∀ v ∈ job, v ∈ cLasts c st ++ cOlds c st) :
-    R (if job.isEmpty then dropState c t st else { dropState c t st with pending := (dropState c t st).pending ++ [job] })
+    Rx cl (if job.isEmpty then dropState c t st else { dropState c t st with pending := (dropState c t st).pending ++ [job] })
       (Spec.close s t) := by
   have hr := isStoreOf_commit h.inv hst
   have i' := discard_inv h.inv hst hr hj
-  have hR : R (discardG c t (cLasts c st ++ cOlds c st) job) (Spec.close s t) :=
+  have hR : Rx cl (discardG c t (cLasts c st ++ cOlds c st) job) (Spec.close s t) :=
     close_R_of_inv h t _ i' rfl rfl rfl rfl (fun t' ht' => by simp [discardG, ht'])
   have e : discardG c t (cLasts c st ++ cOlds c st) job
       = if job.isEmpty then dropState c t st else { dropState c t st with pending := (dropState c t st).pending ++ [job] } := by
@@ -97,13 +97,13 @@ theorem reg_unique {c : Sys} (i : Inv c) {r r' : TxRec} (hr : r ∈ c.reg) (hr' 
   · exact absurd he.symm ((List.pairwise_iff_getElem.mp i.regIds) j' j hj' hj hgt)
 
 /-- R for the published state -/
-theorem publish_R {c : Sys} {s : State} (h : R c s) {x : STx} (hx : x ∈ s.open_) {st : Store}
+theorem publish_R {c : Sys} {s : State} {cl : List Nat} (h : Rx cl c s) {x : STx} (hx : x ∈ s.open_) {st : Store}
     (hst : c.txs x.id = some st) (recs' : List Ver) :
-    R (pubState c x.id st recs') (publishS (Spec.close s x.id) x) := by
+    Rx cl (pubState c x.id st recs') (publishS (Spec.close s x.id) x) := by
   have i := h.inv
   have hr := isStoreOf_commit i hst
   have i2 := discard_inv i hst hr (job := cOlds c st) olds_subset
-  have hR2 : R (discardG c x.id (cLasts c st ++ cOlds c st) (cOlds c st)) (Spec.close s x.id) :=
+  have hR2 : Rx cl (discardG c x.id (cLasts c st ++ cOlds c st) (cOlds c st)) (Spec.close s x.id) :=
     close_R_of_inv h x.id _ i2 rfl rfl rfl rfl (fun t' ht' => by simp [discardG, ht'])
   have hw := written_eq h hx hst
   refine ⟨publish_inv i hst recs', ?_, h.dom, close_reg h x.id, ?_, ?_, ?_⟩
@@ -123,7 +123,7 @@ theorem publish_R {c : Sys} {s : State} (h : R c s) {x : STx} (hx : x ∈ s.open
         | some v => if k ∈ writtenS (Spec.close s x.id).dom x.own then s.hist k ++ [⟨s.clock + 1, v.val⟩] else s.hist k
         | none => s.hist k) = pre' ++ (c.main k ++ pubOf c st k).map absV ∧
         (∀ p ∈ pre', ∀ v ∈ c.main k ++ pubOf c st k, p.stamp < v.seq) ∧
-        (pre' ≠ [] → ∃ hd, (c.main k ++ pubOf c st k).head? = some hd ∧ ∀ r ∈ c.reg.filter (·.id ≠ x.id), hd.seq < r.seq)
+        (pre' ≠ [] → ∃ hd, (c.main k ++ pubOf c st k).head? = some hd ∧ ∀ r ∈ c.reg.filter (·.id ≠ x.id), r.id ∉ cl → hd.seq < r.seq)
     rw [hw]
     cases hl : Sys.latest (st k) with
     | none =>
@@ -132,7 +132,7 @@ theorem publish_R {c : Sys} {s : State} (h : R c s) {x : STx} (hx : x ∈ s.open
       simp only [Option.map_none, List.append_nil]
       refine ⟨pre, g1, g2, ?_⟩
       intro hp'; obtain ⟨hd, hh, hlt⟩ := g3 hp'
-      exact ⟨hd, hh, fun r hr' => hlt r (mem_of_filter hr')⟩
+      exact ⟨hd, hh, fun r hr' hc => hlt r (mem_of_filter hr') hc⟩
     | some v =>
       have hp : pubOf c st k = [Sys.retag (c.counter + 1) v] := by unfold pubOf; rw [hl]
       have hkw : k ∈ cWritten c st := (mem_cWritten i hst k).mpr (List.ne_nil_of_mem (latest_mem hl))
@@ -155,7 +155,7 @@ theorem publish_R {c : Sys} {s : State} (h : R c s) {x : STx} (hx : x ∈ s.open
           omega
       · intro hp'
         obtain ⟨hd, hh, hlt⟩ := g3 hp'
-        refine ⟨hd, ?_, fun r hr' => hlt r (mem_of_filter hr')⟩
+        refine ⟨hd, ?_, fun r hr' hc => hlt r (mem_of_filter hr') hc⟩
         cases hm : c.main k with
         | nil => simp [hm] at hh
         | cons a t => simp [hm] at hh ⊢; exact hh
@@ -183,13 +183,13 @@ theorem Inv.congr {a b : Sys} (h : Inv a) (h1 : b.counter = a.counter) (h2 : b.m
     h.regSorted, h.regBound, h.txsReg, h.ownAfter, h.beginNotVer, h.stor, h.cfsBound, h.pendDead,
     h.pendBound, h.domAll, h.domNodup, h.tagMain, h.tagTx⟩
 
-theorem R.congr {a b : Sys} {s : State} (h : R a s) (h1 : b.counter = a.counter) (h2 : b.main = a.main)
+theorem Rx.congr {a b : Sys} {s : State} {cl : List Nat} (h : Rx cl a s) (h1 : b.counter = a.counter) (h2 : b.main = a.main)
     (h3 : b.txs = a.txs) (h4 : b.all = a.all) (h5 : b.reg = a.reg) (h6 : b.dom = a.dom)
-    (h7 : b.nextCid = a.nextCid) (h8 : b.cfs = a.cfs) (h9 : b.pending = a.pending) : R b s :=
+    (h7 : b.nextCid = a.nextCid) (h8 : b.cfs = a.cfs) (h9 : b.pending = a.pending) : Rx cl b s :=
   h.transfer (h.inv.congr h1 h2 h3 h4 h5 h6 h7 h8 h9) h1 h6 h5 h2 h3
 
-theorem step_commit {c : Sys} {s : State} (h : R c s) (t : Nat) :
-    (c.commit t).2 = (Spec.commit s t).2 ∧ R (c.commit t).1 (Spec.commit s t).1 := by
+theorem step_commit {c : Sys} {s : State} {cl : List Nat} (h : Rx cl c s) (t : Nat) :
+    (c.commit t).2 = (Spec.commit s t).2 ∧ Rx cl (c.commit t).1 (Spec.commit s t).1 := by
   have i := h.inv
   rcases ctx_cases h t with ⟨h1, h2⟩ | ⟨htm, _, _⟩ | ⟨htm, tx, x, h1, htx, htid, hx, hxid, h2⟩
   · -- unknown transaction
